@@ -143,7 +143,7 @@ func drawGzHdr(t *rapid.T) *GzHdr {
 func drawMember(t *rapid.T, pkg string, max int) Member {
 	var m Member
 	m.Enc = rapid.SampledFrom([]string{"fast", "fast", "std"}).Draw(t, "enc")
-	m.Level = rapid.SampledFrom([]int{-2, -1, -1, 0, 1, 1, 2, 2, 3, 6, 9}).Draw(t, "level")
+	m.Level = rapid.SampledFrom([]int{-2, -1, -1, 0, 1, 1, 2, 2, 3, 6, 9, 4, 5, 7, 8}).Draw(t, "level")
 	switch rapid.IntRange(0, 4).Draw(t, "dsize") {
 	case 0:
 		m.Data = gen.Recipe{}
